@@ -397,6 +397,17 @@ def void_counter(ctx, db, rid):
                     mx = next((c_ for c_ in reversed(tr[:i_]) if c_.k == 'call' and norm(c_.get('callee') or '') == 'std::max'), None)
                     sat = rhs in ('(call(std::max)-1)',) and mx is not None and any(a_.get('const') == 1 for a_ in mx.get('args', [])) and any((a_.get('path') or '') == 'this->_sz' for a_ in mx.get('args', []))
                     ok = ok and (sat or bool(re.fullmatch(r'\(local:\w+-1\)', rhs)) or delta_of_write(w_) == -1)
+            if want == '=' and not ok and trs_ and not has_back_edge(f):
+                # any other spelling: read every path as a transformer of the counter and compare with max(count, 1) - 1
+                steps = [counter_step(tr, 'this->_sz') for tr in trs_]
+                if any(st_ is None for st_ in steps):
+                    raise Broken('std_queue<void>::pop: the new token count is computed by an expression the counter rule cannot interpret')
+                cover = set()
+                ok = True
+                for st_ in steps:
+                    cover |= set(st_)
+                    ok = ok and all(nv == max(v, 1) - 1 for v, nv in st_.items())
+                ok = ok and cover == set(range(24))
             ctx.ob(rid, f, f['key'], ok, '%s changes the token count by exactly one' % name.split('::')[-1], desc='std_queue<void>::%s does not change the count by one' % name.split('::')[-1])
 
 
